@@ -183,6 +183,11 @@ func runC18(c *core.Ctx) error {
 
 	// ---- R18.3 enum scan
 	checkEnumScan(c, prog, r3)
+
+	r5 := c.NewRule("R18.5", "S1", "scalar comparisons treat left and right symmetrically; equalNumber decides only through reviewed exact predicates", 8)
+	r6 := c.NewRule("R18.6", "S1", "composite comparisons return true only after an iterator reported exhaustion", 2)
+	checkSymmetry(c, prog, r5)
+	checkExhaustion(c, prog, r6)
 	return nil
 }
 
@@ -450,4 +455,247 @@ func containsContinue(b *ast.BlockStmt) bool {
 		}
 	}
 	return false
+}
+
+// sideOf classifies a value as derived from the left (1), right (2), both (3)
+// or neither (0) decoder of the compare receiver, following calls, extracts,
+// conversions, phis and stores into locals.
+func sideOf(v ssa.Value, memo map[ssa.Value]int, depth int) int {
+	if v == nil || depth > 12 {
+		return 0
+	}
+	if s, ok := memo[v]; ok {
+		return s
+	}
+	memo[v] = 0
+	s := 0
+	switch x := v.(type) {
+	case *ssa.Field:
+		switch fieldName(x.X.Type(), x.Field) {
+		case "left":
+			s = 1
+		case "right":
+			s = 2
+		}
+	case *ssa.UnOp:
+		if fa, ok := x.X.(*ssa.FieldAddr); ok && x.Op == token.MUL {
+			switch fieldName(fa.X.Type(), fa.Field) {
+			case "left":
+				s = 1
+			case "right":
+				s = 2
+			}
+		}
+		if s == 0 {
+			s = sideOf(x.X, memo, depth+1)
+		}
+	case *ssa.Call:
+		for _, a := range x.Common().Args {
+			s |= sideOf(a, memo, depth+1)
+		}
+		if x.Common().IsInvoke() {
+			s |= sideOf(x.Common().Value, memo, depth+1)
+		}
+	case *ssa.Extract:
+		s = sideOf(x.Tuple, memo, depth+1)
+	case *ssa.Convert:
+		s = sideOf(x.X, memo, depth+1)
+	case *ssa.ChangeType:
+		s = sideOf(x.X, memo, depth+1)
+	case *ssa.MakeInterface:
+		s = sideOf(x.X, memo, depth+1)
+	case *ssa.Slice:
+		s = sideOf(x.X, memo, depth+1)
+	case *ssa.Phi:
+		for _, e := range x.Edges {
+			s |= sideOf(e, memo, depth+1)
+		}
+	case *ssa.Alloc:
+		// a local that receives a side-derived value through a method call with a side-derived argument
+		// (lnum.UnmarshalText(lval)) or a store
+		for _, ref := range *x.Referrers() {
+			switch r := ref.(type) {
+			case *ssa.Store:
+				if r.Addr == ssa.Value(x) {
+					s |= sideOf(r.Val, memo, depth+1)
+				}
+			case *ssa.Call:
+				// only methods that fill the receiver from their argument
+				mut := false
+				if cal := r.Common().StaticCallee(); cal != nil {
+					for _, pre := range []string{"Unmarshal", "Set", "Parse", "Decode", "Read", "Reset"} {
+						if strings.HasPrefix(cal.Name(), pre) {
+							mut = true
+						}
+					}
+				}
+				if mut && len(r.Common().Args) > 1 && r.Common().Args[0] == ssa.Value(x) {
+					for _, a := range r.Common().Args[1:] {
+						s |= sideOf(a, memo, depth+1)
+					}
+				}
+			}
+		}
+	case *ssa.FreeVar:
+		// captured variable of the parent: find the binding
+		fn := x.Parent()
+		if p := fn.Parent(); p != nil {
+			for _, b := range p.Blocks {
+				for _, in := range b.Instrs {
+					if mc, ok := in.(*ssa.MakeClosure); ok && mc.Fn == fn {
+						for i, fv := range fn.FreeVars {
+							if fv == x && i < len(mc.Bindings) {
+								s = sideOf(mc.Bindings[i], memo, depth+1)
+							}
+						}
+					}
+				}
+			}
+		}
+	case *ssa.Parameter:
+		// parameter of a closure called with side-derived arguments
+		fn := x.Parent()
+		if p := fn.Parent(); p != nil {
+			idx := paramIndex(fn, x)
+			for _, call := range core.Calls(p) {
+				if mc, ok := call.Common().Value.(*ssa.MakeClosure); ok && mc.Fn == fn && idx < len(call.Common().Args) {
+					s |= sideOf(call.Common().Args[idx], memo, depth+1)
+				}
+				if call.Common().StaticCallee() == fn && idx < len(call.Common().Args) {
+					s |= sideOf(call.Common().Args[idx], memo, depth+1)
+				}
+			}
+		}
+	}
+	memo[v] = s
+	return s
+}
+
+var reviewedNumberPredicates = map[string]string{
+	"(github.com/go-faster/jx.Num).Zero":    "exact: all digits zero",
+	"(github.com/go-faster/jx.Num).Equal":   "exact: byte equality",
+	"(github.com/go-faster/jx.Num).IsInt":   "exact: no fraction/exponent",
+	"(github.com/go-faster/jx.Num).Float64": "monotone rounding: may only decide inequality (R18.2)",
+	"(*math/big.Rat).UnmarshalText":         "exact",
+	"(*math/big.Rat).Cmp":                   "exact",
+	"(*github.com/go-faster/jx.Decoder).Num": "reads the number",
+	"github.com/go-faster/errors.Wrap":       "error path",
+}
+
+func checkSymmetry(c *core.Ctx, prog *core.Prog, r *core.Rule) {
+	for _, name := range []string{"equalBool", "equalString", "equalNumber"} {
+		fn := prog.Func(pkgJSON, "compare."+name)
+		if fn == nil {
+			r.Undecided("anchor:"+name, "-", "json.compare."+name+" not found")
+			continue
+		}
+		memo := map[ssa.Value]int{}
+		left, right := map[string]int{}, map[string]int{}
+		for _, f := range core.AllFuncs(fn) {
+			for _, call := range core.Calls(f) {
+				cc := call.Common()
+				callee := core.CalleeName(cc)
+				if strings.HasPrefix(callee, "builtin") {
+					continue
+				}
+				s := 0
+				for _, a := range cc.Args {
+					s |= sideOf(a, memo, 0)
+				}
+				if cc.IsInvoke() {
+					s |= sideOf(cc.Value, memo, 0)
+				}
+				if mc, ok := cc.Value.(*ssa.MakeClosure); ok {
+					callee = "closure " + mc.Fn.Name()
+				} else if cc.StaticCallee() == nil && !cc.IsInvoke() {
+					callee = "closure-call"
+				}
+				switch s {
+				case 1:
+					left[callee]++
+				case 2:
+					right[callee]++
+				}
+			}
+		}
+		ok := len(left) == len(right)
+		for k, n := range left {
+			if right[k] != n {
+				ok = false
+			}
+		}
+		if ok && len(left) > 0 {
+			r.Pass(fmt.Sprintf("%s: the same %d operations are applied to the left and to the right operand", name, len(left)))
+		} else {
+			r.Fail(name+":asymmetric", c.Pos(fn.Pos()), fmt.Sprintf("%s applies %v to the left operand but %v to the right: the comparison is not symmetric (Equal(a,b) ≠ Equal(b,a))", name, left, right))
+		}
+	}
+	// reviewed predicates in equalNumber
+	if fn := prog.Func(pkgJSON, "compare.equalNumber"); fn != nil {
+		for _, call := range core.Calls(fn) {
+			callee := core.CalleeName(call.Common())
+			if strings.HasPrefix(callee, "builtin") {
+				continue
+			}
+			if why, ok := reviewedNumberPredicates[callee]; ok {
+				r.Pass(fmt.Sprintf("equalNumber uses %s (%s)", core.ShortPkg(callee), why))
+			} else {
+				r.Fail("equalNumber:predicate:"+callee, c.Pos(call.Pos()), fmt.Sprintf("equalNumber decides through %s, which is not in the reviewed list of exact predicates: a shortcut that is not exact for every spelling (0.5 vs 5e-1) breaks number-spelling insensitivity", core.ShortPkg(callee)))
+			}
+		}
+	}
+}
+
+func checkExhaustion(c *core.Ctx, prog *core.Prog, r *core.Rule) {
+	for _, name := range []string{"equalArray", "equalObject"} {
+		fn := prog.Func(pkgJSON, "compare."+name)
+		if fn == nil {
+			r.Undecided("anchor:"+name, "-", "json.compare."+name+" not found")
+			continue
+		}
+		// iterator Next() calls
+		var nexts []*ssa.Call
+		for _, call := range core.Calls(fn) {
+			if cl, ok := call.(*ssa.Call); ok && cl.Common().StaticCallee() != nil && cl.Common().StaticCallee().Name() == "Next" &&
+				strings.HasSuffix(recvName(cl.Common().StaticCallee().Signature.Recv().Type()), "Iter") {
+				nexts = append(nexts, cl)
+			}
+		}
+		n := 0
+		for _, b := range fn.Blocks {
+			ret, ok := b.Instrs[len(b.Instrs)-1].(*ssa.Return)
+			if !ok || len(ret.Results) != 2 {
+				continue
+			}
+			v := ret.Results[0]
+			if isConstBool(v, false) {
+				continue
+			}
+			if _, isConst := v.(*ssa.Const); !isConst {
+				// `return !riter.Next(), nil` — the verdict itself is the exhaustion test
+				if u, ok := v.(*ssa.UnOp); ok && u.Op == token.NOT {
+					if cl, ok := u.X.(*ssa.Call); ok && cl.Common().StaticCallee() != nil && cl.Common().StaticCallee().Name() == "Next" {
+						// still requires the left iterator to be exhausted
+					}
+				}
+			}
+			n++
+			dom := false
+			for _, nx := range nexts {
+				for _, eb := range core.EdgeBlocks(nx, false) {
+					if eb.Dominates(b) {
+						dom = true
+					}
+				}
+			}
+			if dom {
+				r.Pass(fmt.Sprintf("%s: verdict at %s is reached only after an iterator reported exhaustion", name, c.Pos(ret.Pos())))
+			} else {
+				r.Fail(name+":early-true", c.Pos(ret.Pos()), fmt.Sprintf("%s can report equality before any iterator is exhausted: a value that is a proper prefix/subset of the other compares equal, and the decoders are left mid-value", name))
+			}
+		}
+		if n == 0 {
+			r.Undecided(name+":returns", c.Pos(fn.Pos()), "no possibly-true return found")
+		}
+	}
 }
